@@ -364,6 +364,12 @@ impl<F: WithSmallOrderMulGroup<3>> EvaluationDomain<F> {
         });
     }
 
+    /// Verification hook: the private `distribute_powers_zeta` on a slice of any length.
+    #[cfg(feature = "verif-hooks")]
+    pub fn verif_distribute_powers_zeta(&self, a: &mut [F], into_coset: bool) {
+        self.distribute_powers_zeta(a, into_coset)
+    }
+
     fn ifft(a: &mut [F], omega_inv: F, log_n: u32, divisor: F) {
         best_fft(a, omega_inv, log_n);
         parallelize(a, |a, _| {
